@@ -9,7 +9,7 @@
    the model. *)
 From Coq Require Import Reals List Bool.
 From Coquelicot Require Import Coquelicot.
-From GS Require Import Num Loops C18_Model C18_RInst C18_Analysis C18_Proofs C18_Pipeline.
+From GS Require Import Num Loops C18_Model C18_RInst C18_Analysis C18_Proofs C18_Pipeline C18_Loglik C18_DerivNear C18_Examples.
 Open Scope R_scope.
 
 (* on the normalize range, normalize returns a number, that number lies in the coded denormalize range, and
@@ -58,6 +58,25 @@ Theorem C18_derivative :
 Proof. exact derivative_exact. Qed.
 Print Assumptions C18_derivative.
 
+(* for EVERY parameter value, also in the logarithmic branches with 0 < |lmbda| <= 1e-8 (or |lmbda - 2| <= 1e-8 + 2e-5
+   on the negative side of YeoJohnson) where the code evaluates ln but reports the power-family derivative:
+   reported = true derivative * exp e with |e| <= (1e-8 + 2e-5) * |u(x)|, u = ln x, ln (x + shift), ln (1 + |x|), x
+   for BoxCox, BoxCoxShift, YeoJohnson/Modulus, Manly; e = 0 under the hypothesis of C18_derivative *)
+Theorem C18_derivative_log_branch :
+  forall (k : nkind) (p : npar R) (x : R), in_range Rops (norm_range Rops k p) x = true ->
+    exists e, is_derive (normalize_raw Rops k p) x (derivative_raw Rops k p x * exp (- e)) /\
+              (exact_branch k p x -> e = 0) /\
+              Rabs e <= (1 / 100000000 + 2 / 100000) *
+                        Rabs (match k with
+                              | KBoxCox => ln x
+                              | KBoxCoxShift => ln (x + shift p)
+                              | KYeoJohnson | KModulus => ln (1 + Rabs x)
+                              | KManly => x
+                              | _ => 0
+                              end).
+Proof. exact derivative_near. Qed.
+Print Assumptions C18_derivative_log_branch.
+
 (* _check_input, for every number type (IEEE doubles included): NaN in, NaN out; otherwise the value of the
    raw formula exactly when the datum passes the range test *)
 Theorem C18_nan_policy :
@@ -105,3 +124,43 @@ Theorem C18_pipeline_field :
       remove_field Rops k p means trends outs = map Some raws.
 Proof. exact pipeline_field. Qed.
 Print Assumptions C18_pipeline_field.
+
+(* the log-likelihood of base.py is the Gaussian maximum-likelihood profile of the transformed data including the
+   Jacobian: sum_i [ ln pdf_{N(mu, s2)}(normalize x_i) + ln max(1e-16, derivative x_i) ] at mu = mean, s2 = variance
+   (np.var, ddof 0) of the normalized data ... *)
+Theorem C18_loglik_definition :
+  forall (k : nkind) (p : npar R) (d : list R), d <> nil -> 0 < nvar Rops (map (normalize_raw Rops k p) d) ->
+    loglik_valid Rops k p d =
+    rsum (map (fun x => gauss_logpdf (nmean Rops (map (normalize_raw Rops k p) d))
+                                     (nvar Rops (map (normalize_raw Rops k p) d)) (normalize_raw Rops k p x)) d)
+    + rsum (map (fun x => ln (nmax Rops (tiny Rops) (derivative_raw Rops k p x))) d).
+Proof. exact loglik_profile. Qed.
+Print Assumptions C18_loglik_definition.
+
+(* ... and no other mean / variance gives a larger likelihood: it is the maximum over (mu, s2) *)
+Theorem C18_loglik_maximal :
+  forall (k : nkind) (p : npar R) (d : list R) (mu s2 : R),
+    d <> nil -> 0 < nvar Rops (map (normalize_raw Rops k p) d) -> 0 < s2 ->
+    rsum (map (fun x => gauss_logpdf mu s2 (normalize_raw Rops k p x)) d)
+    + rsum (map (fun x => ln (nmax Rops (tiny Rops) (derivative_raw Rops k p x))) d)
+    <= loglik_valid Rops k p d.
+Proof. exact loglik_maximal. Qed.
+Print Assumptions C18_loglik_maximal.
+
+(* kernel_loglikelihood differs from loglikelihood by the constant -n/2 (ln 2 pi + 1): same maximiser in lmbda *)
+Theorem C18_loglik_kernel_offset :
+  forall (k : nkind) (p : npar R) (d : list R),
+    loglik_valid Rops k p d = kernel_loglik_valid Rops k p d - INR (length d) / 2 * (ln (2 * PI) + 1).
+Proof. exact loglik_kernel_offset. Qed.
+Print Assumptions C18_loglik_kernel_offset.
+
+(* non-vacuity: ranges are inhabited, both branches occur, data with positive variance exist *)
+Theorem C18_hypotheses_satisfiable :
+  (forall (k : nkind) (p : npar R), -1 < shift p ->
+     in_range Rops (norm_range Rops k p) 1 = true /\
+     in_range Rops (denorm_range Rops k p) (normalize_raw Rops k p 1) = true) /\
+  (close0 Rops 0 = true /\ close0 Rops (1 / 1000000000) = true /\ close0 Rops (-1) = false /\ close0 Rops (1 / 2) = false /\
+   close2 Rops 2 = true /\ close2 Rops (2 + 1 / 100000) = true /\ close2 Rops (5 / 2) = false) /\
+  (forall p : npar R, (0 :: 1 :: nil) <> nil /\ 0 < nvar Rops (map (normalize_raw Rops KIdentity p) (0 :: 1 :: nil))).
+Proof. exact (conj ranges_inhabited (conj branches_inhabited variance_positive)). Qed.
+Print Assumptions C18_hypotheses_satisfiable.
